@@ -39,6 +39,7 @@
 #include <event2/event.h>
 #include <event2/event_struct.h>
 #include <event2/buffer.h>
+#include <event2/bufferevent.h>
 #include <event2/http.h>
 #include <event2/http_struct.h>
 #include <event2/rpc.h>
@@ -219,7 +220,7 @@ static struct evhttp *http;
 static struct evhttp_bound_socket *bound;
 static struct evrpc_base *rpcbase;
 static struct evrpc_pool *pool;
-static int port;
+static int port, connect_port, dead_fd = -1;
 static int idle_hit, nready_sum, activity;
 
 struct creq {
@@ -424,7 +425,7 @@ static void loop_nonblock(void) { nready_sum = 0; event_base_loop(base, EVLOOP_N
  * base; the per-execution base is the "current" base while that happens. */
 static struct evhttp_connection *new_pool_connection(void)
 {
-	return evhttp_connection_base_new(NULL, NULL, "127.0.0.1", (ev_uint16_t)port);
+	return evhttp_connection_base_new(NULL, NULL, "127.0.0.1", (ev_uint16_t)(connect_port > 0 ? connect_port : port));
 }
 static struct event_base *new_base(void)
 {
@@ -455,7 +456,7 @@ static void reset_state(void)
 	handler_calls[0] = handler_calls[1] = 0;
 	n_deferred_pending = n_saved = n_accepted = 0; any_terminate = kill_at = server_gone = chain_second = 0;
 	raw_expect_valid = -1; s2_expect_ok = 0; idle_hit = 0; activity = 0;
-	base = NULL; http = NULL; bound = NULL; rpcbase = NULL; pool = NULL; port = -1;
+	base = NULL; http = NULL; bound = NULL; rpcbase = NULL; pool = NULL; port = -1; connect_port = -1; dead_fd = -1;
 	pset_compact();
 	live0 = live; fds0 = fd_table_signature();
 }
@@ -492,6 +493,7 @@ static void teardown(void)
 		evrpc_free(rpcbase);
 	}
 	if (http) evhttp_free(http);
+	if (dead_fd >= 0) { close(dead_fd); dead_fd = -1; }
 	for (int i = 0; i < MAXREQ; i++) if (creq[i].used) { msg_free(creq[i].msg); kill_free(creq[i].reply); }
 	if (base) event_base_free(base);
 	base = NULL; event_global_current_base_ = NULL;
@@ -569,6 +571,16 @@ static void scenario_e2e(void)
 			if (!h) mc_fail("harness:add-hook", "x");
 		}
 	}
+	/* "server gone": the pool is pointed at a port on which nothing listens.  The port belongs to a
+	 * bound, non-listening socket of this execution, so that no other process (another worker's
+	 * server!) can be handed the same number while the request is in flight. */
+	server_gone = mc_choose(2, 1, "server-gone");
+	if (server_gone) {
+		struct sockaddr_in sin; memset(&sin, 0, sizeof sin); sin.sin_family = AF_INET; sin.sin_addr.s_addr = htonl(INADDR_LOOPBACK);
+		dead_fd = socket(AF_INET, SOCK_STREAM, 0);
+		if (dead_fd < 0 || bind(dead_fd, (struct sockaddr *)&sin, sizeof sin) < 0) mc_fail("harness:dead-port", "%s", strerror(errno));
+		connect_port = local_port(dead_fd);
+	}
 	for (int i = 0; i < nconn; i++) {
 		struct evhttp_connection *c = new_pool_connection();
 		if (!c) { mc_fail("harness:connection", "x"); break; }
@@ -587,11 +599,9 @@ static void scenario_e2e(void)
 		cr->msg = msg_new(); cr->reply = kill_new();
 		fill_msg(cr->msg, &cat_msg[cr->msg_idx]);
 	}
-	server_gone = mc_choose(2, 1, "server-gone");
 	kill_at = mc_choose(7, 1, "kill-at");
 	mc_observe("e2e conn=%d hooks=[%s,%s,%s,%s]%s%s ", nconn, hb_name[hook_beh[0]], hb_name[hook_beh[1]], hb_name[hook_beh[2]], hb_name[hook_beh[3]],
 	    server_gone ? " server-gone" : "", second == 1 ? " +queued" : second == 2 ? " +chained" : "");
-	if (server_gone) { evhttp_del_accept_socket(http, bound); bound = NULL; }
 	/* reasons the property accepts for an error status */
 	for (int i = 0; i < nreq; i++) {
 		struct creq *cr = &creq[i];
@@ -601,6 +611,9 @@ static void scenario_e2e(void)
 	issue(&creq[0]);
 	if (second == 1) issue(&creq[1]);
 	drive(200);
+	/* handlers that never replied: complete them now (as test/regress_rpc.c does), and let hooks they run into finish */
+	release_saved();
+	drive(100);
 	/* nothing may fire later: stale timers, second completions */
 	vclock_advance(3 * SEC); for (int i = 0; i < 3; i++) loop_nonblock();
 	final_checks();
@@ -743,6 +756,13 @@ static void scenario_rawclient(void)
 	teardown();
 }
 
+static int is_pool_peer(int afd, struct evhttp_connection *c)
+{
+	struct sockaddr_in a, b; socklen_t al = sizeof a, bl = sizeof b;
+	int cfd = bufferevent_getfd(evhttp_connection_get_bufferevent(c));
+	if (cfd < 0 || getpeername(afd, (struct sockaddr *)&a, &al) < 0 || getsockname(cfd, (struct sockaddr *)&b, &bl) < 0) return 0;
+	return a.sin_port == b.sin_port;
+}
 /* ================================================================ S2: the real pool against a raw server */
 static void scenario_rawserver(void)
 {
@@ -784,6 +804,7 @@ static void scenario_rawserver(void)
 		loop_nonblock();
 		if (!accepted) {
 			afd = __real_accept4(lfd, NULL, NULL, SOCK_NONBLOCK);
+			if (afd >= 0 && !is_pool_peer(afd, c)) { close(afd); afd = -1; MC_COUNT("foreign_connections_dropped"); }   /* shared loopback: not ours */
 			if (afd >= 0) { accepted = 1; activity++; if (behaviour == 2) { close(afd); afd = -2; mc_observe("closed "); } }
 		}
 		if (afd >= 0 && !req_complete) {
